@@ -116,8 +116,8 @@ CHECKS.update({
 })
 CHECKS.update({
     'C18': dict(
-        text='Fourier clauses: DiscreteFourierTransform(+Inverse) and FourierTransform(+Inverse) are executed on arrays of solver variables for shapes (2),(3),(4),(5),(6),(3,4),(4,3),(2,3,2), all axes subsets, halfcomplex, both signs, all per-axis shift combinations, real and complex dtypes, both back-ends: the DFT equals the discrete Fourier sum over the chosen axes (exact arithmetic for lengths 2,3,4,6), inverse(dft(x)) = x out-of-place, with out= and when applied twice (argument not destroyed), each back-end inverts the other, results do not depend on previous contents of outputs, temporaries and FFTW plan arrays (taint), plan and temporary re-use; the continuous transform equals s*phi_hat(xi_bar)*sum_j f(x_j)exp(-+i x_j xi_k) on the operator\'s own grids and its inverse recovers every input (affine in the input with float phase factors: exact bound over the box [-8,8]^n below 1e-9). The FFT libraries are replaced by their documented input/output relation (symnp.fftmodel) incl. FFTW\'s destruction of plan arrays and multi-dimensional c2r inputs; every path is compared with the real numpy.fft / FFTW at a sample point. Wavelet clauses and the Gaussian convergence clause are not decided (see level_note).',
-        note='NOT decided by this check: (i) wavelet decomposition/reconstruction identity and adjoint -- decomposition, reconstruction, ravel/unravel of coefficients all happen inside PyWavelets (compiled), ODL\'s own code is cropping and one scale factor, which cannot run on symbolic data without re-stating the library; (ii) convergence to the analytic Gaussian transform under refinement (asymptotic float statement; the exact quadrature formula is decided instead); (iii) equality of numpy.fft and FFTW themselves (both are replaced by the same documented relation; the comparison with the real libraries is one sample per path). Trusted: symnp engine, fftmodel, z3. Five defects repaired, two known findings.',
+        text='Fourier clauses: DiscreteFourierTransform(+Inverse) and FourierTransform(+Inverse) are executed on arrays of solver variables for shapes (2),(3),(4),(5),(6),(3,4),(4,3),(2,3,2), all axes subsets, halfcomplex, both signs, all per-axis shift combinations, real and complex dtypes, both back-ends: the DFT equals the discrete Fourier sum over the chosen axes (exact arithmetic for lengths 2,3,4,6), inverse(dft(x)) = x out-of-place, with out= and when applied twice (argument not destroyed), each back-end inverts the other, results do not depend on previous contents of outputs, temporaries and FFTW plan arrays (taint), plan and temporary re-use; the continuous transform equals s*phi_hat(xi_bar)*sum_j f(x_j)exp(-+i x_j xi_k) on the operator\'s own grids and its inverse recovers every input (affine in the input with float phase factors: exact bound over the box [-8,8]^n below 1e-9). The FFT libraries are replaced by their documented input/output relation (symnp.fftmodel) incl. FFTW\'s destruction of plan arrays and multi-dimensional c2r inputs; every path is compared with the real numpy.fft / FFTW at a sample point. Wavelet clauses for the Haar wavelet on even lengths (1-3d, axes subsets, 1-3 levels, every extension mode; PyWavelets replaced by the pairwise Haar relation, symnp.pywtmodel): inverse(W(x)) = x, W(inverse(c)) = c, adjoint identity for both returned adjoints in the weighted inner products, energy identity. Other wavelets and the Gaussian convergence clause are not decided (see level_note).',
+        note='NOT decided by this check: (i) wavelets other than Haar, odd lengths (cropping branch of the inverse), biorthogonal wavelets -- decomposition and reconstruction happen inside PyWavelets (compiled); re-stating general filter banks and boundary modes would verify the re-statement, so only the Haar/even case, where the relation is two lines and independent of the extension mode, is modelled; (ii) convergence to the analytic Gaussian transform under refinement (asymptotic float statement; the exact quadrature formula is decided instead); (iii) equality of numpy.fft and FFTW themselves (both are replaced by the same documented relation; the comparison with the real libraries is one sample per path). Trusted: symnp engine, fftmodel, z3. Five defects repaired, two known findings.',
         ref='DESIGN.md section 4 C18'),
 })
 NOT_YET = {}
